@@ -1,7 +1,7 @@
 """C20 — client configuration: environment over file over platform default (DESIGN §4 C20)."""
 import ast
 
-from .common import ctx, returns, calls_in_ctx, reach_from_succ, site, srcs_text
+from .common import ctx, returns, calls_in_ctx, reach_from_succ, site, srcs_text, full_text
 from ..flow import callee_attr
 from ..loader import AnalysisError, norm, NOVALUE
 from ..verdict import StrDomain, pruned_edges
@@ -38,7 +38,10 @@ def run(R):
         if n.kind == 'stmt' and isinstance(n.ast, ast.Assign):
             for t in n.ast.targets:
                 if isinstance(t, ast.Subscript) and ast.unparse(t.value) == 'ret':
-                    writes.append((n, classify(n.ast.value)))
+                    k_ = classify(n.ast.value)
+                    if k_ == 'other':      # through a local (`file_values = parser['DEFAULT']`)
+                        k_ = classify(ast.parse(full_text(rc, n.ast.value), mode='eval').body)
+                    writes.append((n, k_))
     init = [n for n in rc.cfg.nodes if n.kind == 'stmt' and isinstance(n.ast, ast.Assign) and any(
         isinstance(t, ast.Name) and t.id == 'ret' for t in n.ast.targets) and isinstance(n.ast.value, ast.Dict)]
     R.need(len(init) == 1, 'read_client_conf: the result dict literal was not found')
@@ -112,8 +115,19 @@ def run(R):
     envw = [n for (n, k) in writes if k == 'env']
     inst = RC + ' :: environment names'
     if envw:
-        sub = [x for x in ast.walk(envw[0].ast.value) if isinstance(x, ast.JoinedStr)]
+        evalue = ast.parse(full_text(rc, envw[0].ast.value), mode='eval').body
+        sub = [x for x in ast.walk(evalue) if isinstance(x, ast.JoinedStr)]
         names = set()
+        fmt = [x for x in ast.walk(evalue) if isinstance(x, ast.Call) and isinstance(x.func, ast.Attribute) and x.func.attr == 'format'
+               and isinstance(x.func.value, ast.Constant) and isinstance(x.func.value.value, str) and len(x.args) == 1 and not x.keywords]
+        if not sub and fmt and fmt[0].func.value.value.count('{}') == 1:
+            # 'NDN_CLIENT_{}'.format(key.upper())
+            a_ = ast.unparse(fmt[0].args[0])
+            for key in sorted(KEYS):
+                if a_ == 'key.upper()':
+                    names.add(fmt[0].func.value.value.replace('{}', key.upper()))
+                elif a_ == 'key':
+                    names.add(fmt[0].func.value.value.replace('{}', key))
         if sub:
             js = sub[0]
             for key in sorted(KEYS):
@@ -233,7 +247,16 @@ def run(R):
                 probs.append((f'{fn} port is {txt[1]}, expected the URI port (default 6363)', c))
     ports = [n for n in df.cfg.nodes if n.kind == 'stmt' and isinstance(n.ast, ast.Assign) and ast.unparse(n.ast.targets[0]) == 'port'
              and isinstance(n.ast.value, ast.Constant)]
-    if len(ports) != 1 or ports[0].ast.value.value != 6363:
+    # the default may also be spelled in the expression that binds the port: `url.port or 6363`, `6363 if url.port is None else url.port`
+    inline_default = [v for n in df.cfg.nodes for (nm, v) in df.cfg.defs_of(n) if nm == 'port' and isinstance(v, (ast.BoolOp, ast.IfExp))
+                      and '.port' in ast.unparse(v)]
+    if not ports and inline_default:
+        consts = {x.value for v in inline_default for x in ast.walk(v) if isinstance(x, ast.Constant) and isinstance(x.value, int) and not isinstance(x.value, bool)}
+        if consts != {6363}:
+            probs.append((f'default port is {sorted(consts)}, expected 6363', inline_default[0]))
+        elif any(isinstance(v, ast.BoolOp) and not (isinstance(v.op, ast.Or) and ast.unparse(v.values[0]).endswith('.port')) for v in inline_default):
+            probs.append(('the default port overrides a port given in the URI', inline_default[0]))
+    elif len(ports) != 1 or ports[0].ast.value.value != 6363:
         probs.append((f'default port is {[p.ast.value.value for p in ports]}, expected 6363', ports[0].ast if ports else df.f.node))
     else:
         tests = [t for t in df.cfg.nodes if t.kind == 'test' and ast.unparse(t.ast) in ('port', 'port is None', 'port is not None')]
